@@ -497,6 +497,8 @@ CORPUS = [
     # F66 (forLoop over an index array: tiled before another loop; empty)
     ["dev S", "new 3 3 1 4 11", "loop a:3:t8 n:1:t1", "loop a:3:t2 r:0:3:1:t2 a:3:t1"],
     ["dev O", "new 2 0", "loop n:0 n:9 | a:2", "loop a:2", "loop n:2 | a:2"],
+    # F67 (clone of a zero-length slice)
+    ["dev S", "new 3 1 5", "slice 3 2 0 0", "clone 2 2", "shl 2 4 0 7", "shr 2 5 0 7"],
     # plain regressions
     ["dev O", "new 0 5 3 1 4 1 5", "tile 0 1024 1", "map 0 1 2 2 1", "rev 1 2", "concat 1 2 3", "slice 3 4 2 5", "fill 4 7", "get 3"],
     ["dev S", "loop n:3 r:2:11:3 | n:2", "loop n:10:t4", "loop n:5:t2 r:0:3:1:t8"],
@@ -522,7 +524,8 @@ def main(argv):
     hb = ck.harness("h_functional")
     db = ck.driver("drv_func")
     env = {"OCCA_CACHE_DIR": os.path.join(BUILD, "occa_cache_func"), "OMP_NUM_THREADS": "4",
-           "OCCA_CXXFLAGS": "-O1 -g",
+           # the JIT kernels are ASan-instrumented too: an out-of-bounds access inside a kernel is a report, not luck
+           "OCCA_CXXFLAGS": "-O1 -g -fsanitize=address -fno-omit-frame-pointer",
            # an occa::exception thrown while a kernel is being built leaks parser objects: not this property
            "ASAN_OPTIONS": "detect_leaks=0:abort_on_error=0:exitcode=66:allocator_may_return_null=1"}
     if ck.replay:
